@@ -138,12 +138,14 @@ PROPS["C10"] = {
 
 PROPS["C16"] = {
     "functions": ["iroh_relay::protos::relay::Datagrams::take_segments", "bytes::Bytes::{split_to,len} (real)"],
-    "bounds": "contents 0..=24 bytes (symbolic content), segment size None or 1..=65535, n in 1..=usize::MAX; 3 repeated takes on 0..=12 bytes",
-    "out": "contents longer than 24 bytes (the arithmetic is length-generic; bytes are never inspected)",
+    "bounds": "contents 0..=96 bytes (quick) / 0..=4096 bytes (thorough), symbolic content, segment size None or 1..=65535, n in 1..=usize::MAX; 3 repeated takes on 0..=12 bytes",
+    "out": "contents longer than 4096 bytes (the arithmetic is length-generic; bytes are never inspected)",
     "stubs": [],
     "assumptions": [],
     "harnesses": [
         H(_R, "c16_take_segments_step_any_n", "one take partitions exactly: taken||rest == original, <= n segments, whole segments, ECN kept, segment_size Some iff > 1 datagram (both parts)", "len 0..=24, ss None|1..=65535, n 1..=usize::MAX"),
+        H(_R, "c16_take_segments_step_any_n_96", "same one-step partition claim", "len 0..=96, ss None|1..=65535, n 1..=usize::MAX", timeout=900),
+        H(_R, "c16_take_segments_step_any_n_4096", "same one-step partition claim", "len 0..=4096 (several MTU-sized datagrams), ss None|1..=65535, n 1..=usize::MAX", tier="thorough", timeout=1800),
         H(_R, "c16_take_segments_repeated", "three successive takes reassemble the original", "len 0..=12, n1,n2 in 1..=4"),
         W(_R, "c16_witness"),
     ],
@@ -262,6 +264,7 @@ PROPS["C14"] = {
     "assumptions": [],
     "harnesses": [
         H(_PT, "c14_latest_ping_only", "tracker armed iff latest ping unanswered; deadline = its send time + timeout in force; rtt only from a matching pong (= now - send time); stale/forged pongs change nothing", "every history of 3 operations, clock in 100 ms ticks", timeout=900, stub_env=True, stubs=["rand::random", "Instant::now"]),
+        H(_PT, "c14_latest_ping_only_4_steps", "same as c14_latest_ping_only", "every history of 4 operations", tier="thorough", timeout=3000, stub_env=True, stubs=["rand::random", "Instant::now"]),
         H(_PT, "c14_timeout_is_clamped_triple_rtt", "ping_timeout() == clamp(3*rtt, 500 ms, max), max when unmeasured", "max 1..=120 s, rtt 0..=200 s in ms", timeout=900),
         H(_PT, "c14_stale_pong_ignored", "a pong for an older ping or with forged data changes nothing", "2 pings, 3 pongs", stub_env=True, stubs=["rand::random", "Instant::now"]),
         W(_PT, "c14_witness"),
